@@ -8,7 +8,8 @@ if [ -n "$(git status --porcelain)" ]; then echo "/repo is not clean"; exit 2; f
 git apply "$P" || { echo "patch does not apply"; exit 2; }
 trap 'git -C /repo checkout -- . ' EXIT
 for c in "$@"; do
-  out=$(timeout ${SEED_TIMEOUT:-600} /verif/check "$c" "$TIER" 2>&1); code=$?
+  # evidence of a run against a seeded tree must never land in /verif/evidence
+  out=$(VERIF_EVIDENCE_PATH=/tmp/seed_evidence_$c.json timeout ${SEED_TIMEOUT:-600} /verif/check "$c" "$TIER" 2>&1); code=$?
   nv=$(echo "$out" | grep -c '^VIOLATION')
   echo "== $c $TIER: exit=$code violations_lines=$nv"
   echo "$out" | grep -A2 '^VIOLATION' | cut -c1-300 | head -${SEED_LINES:-9}
